@@ -24,6 +24,7 @@
 #include "parse_statement.h"
 #include "parser.h"
 #include "context.h"
+#include "functor_manager.h"
 #include "debug.h"
 
 namespace
@@ -98,6 +99,9 @@ void INCLUDEStatement::loadSource(Parser& p, Context& ctx)
 
   Parser * np = nullptr;
   std::list<const Statement*> statements;
+  /* function definitions take effect while the source is parsed: keep the
+   * current ones to restore them if the included source is rejected */
+  std::vector<FunctorPtr> functors = ctx.functorManager().snapshot();
 
   try
   {
@@ -136,6 +140,7 @@ void INCLUDEStatement::loadSource(Parser& p, Context& ctx)
       delete np;
     for (auto s : statements)
       delete s;
+    ctx.functorManager().restore(functors);
     ::fclose(progfile);
     throw ParseError(EXC_PARSE_INCLUDE_FAILED_S, val.literal()->c_str());
   }
